@@ -60,7 +60,9 @@ TEXT = {
                            "never change, invoice and HTLC states only move forward, recorded HTLC fields equal what was sent, no HTLC appears that nobody sent or sits on two "
                            "invoices, a settled non-AMP invoice records AmtPaid = sum of settled HTLCs, no HTLC is both settled and canceled, a replayed HTLC is answered "
                            "with the verdict class recorded for it, a failed (injected) store write orders no settle and changes no state. KV and SQL stores driven in lock step "
-                           "must give identical answers and projections. Exploration is the right level: the history space is unbounded, the oracle is history independent.",
+                           "must give identical answers and projections. In half of the runs a delivery may sit in the HTLC interceptor while the clock moves on and the registry's MPP hold "
+                           "timers fire (the interceptor call is made under the registry lock, the timers do not take it): the same predicate must hold for what is then settled. "
+                           "Exploration is the right level: the history space is unbounded, the oracle is history independent.",
                 level_note="Trusted: bbolt/sqlite atomicity; testing/synctest quiescence; the harness's own record of what it sent. Not covered: the HTLC interceptor RPC path beyond a stub, "
                            "postgres, invoice RPC server. Bursts are seam-deterministic only. Known findings (open): AMP set-id reuse erases resolved HTLC records in the KV store; "
                            "replays of spontaneous (keysend/AMP) HTLCs are answered differently once the height moved or the just-in-time insert fails (see known_findings.json)."),
